@@ -6,8 +6,9 @@ CONSTANTS
   Emit = TRUE
   Hist = @@HIST@@
   WalkLen = @@WALKLEN@@
+  ProbeKinds = @@PROBES@@
 VIEW View
 ACTION_CONSTRAINT EmitEdge
 INVARIANTS TypeOK BaseVisibleEverywhere
-PROPERTIES Isolation LifecycleIsLocal FreshIsBase
+PROPERTIES Isolation LifecycleIsLocal FreshIsBase ProbeIsPure
 CHECK_DEADLOCK FALSE
